@@ -17,6 +17,24 @@ fn lib<T: Serialize>(v: &T) -> Result<Vec<u8>, String> {
     Ok(buf)
 }
 
+/// does some object hold two members whose keys have the same canonical (normalised) spelling?
+fn has_colliding_keys(v: &Value) -> bool {
+    match v {
+        Value::Array(a) => a.iter().any(has_colliding_keys),
+        Value::Object(m) => {
+            let mut seen = std::collections::BTreeSet::new();
+            for k in m.keys() {
+                let Ok(n) = lib(&Value::String(k.clone())) else { return false };
+                if !seen.insert(n) {
+                    return true;
+                }
+            }
+            m.values().any(has_colliding_keys)
+        }
+        _ => false,
+    }
+}
+
 fn has_float(v: &Value) -> bool {
     match v {
         Value::Number(n) => !(n.is_u64() || n.is_i64()),
@@ -236,7 +254,17 @@ fuzz_target!(|data: &[u8]| {
         assert!(out.is_err(), "a value containing a float was serialised: {:?}", out.map(|b| String::from_utf8_lossy(&b).to_string()));
         return;
     }
-    let out = out.expect("float-free value refused");
+    let out = match out {
+        Ok(b) => b,
+        Err(e) => {
+            // objects whose member keys coincide after normalisation are outside the property's
+            // domain (the formatter refuses them); any other refusal of a float-free value is a failure
+            if e.contains("same key after normalization") && has_colliding_keys(&v) {
+                return;
+            }
+            panic!("float-free value refused: {e:?}");
+        }
+    };
     if ascii_only(&v) {
         let mut r = Vec::new();
         reference(&mut r, &v);
